@@ -126,7 +126,7 @@ Definition jlsl_parse_sos (st : jls_st) (bs : list Z) : M (jls_st * list Z) :=
 (* allocations of decodeScan: scan buffer (bytes.Buffer, at most 2*len+512), pixels
    (make([]int, w*h*c)), output (1 or 2 bytes per sample) *)
 Definition jls_scan_allocs (st : jls_st) (rest : list Z) : M unit :=
-  _ <- alloc (2 * zlen rest + 512) 1 ;;
+  _ <- note_alloc (2 * zlen rest + 512) ;;
   _ <- alloc (js_w st * js_h st * js_c st) 8 ;;
   alloc (js_w st * js_h st * js_c st) (if js_bits st <=? 8 then 1 else 2).
 
